@@ -139,11 +139,11 @@ def set (c : Ctx) (k : String) (v : Val) : Ctx :=
   | [] => [(k, v)]
   | (k', v') :: rest => if k' = k then (k, v) :: rest else (k', v') :: set rest k v
 
-/-- `dict.pop(k, None)`. -/
+/-- `dict.pop(k, None)`. (All occurrences: on a key-unique list that is the one entry.) -/
 def erase (c : Ctx) (k : String) : Ctx :=
   match c with
   | [] => []
-  | (k', v') :: rest => if k' = k then rest else (k', v') :: erase rest k
+  | (k', v') :: rest => if k' = k then erase rest k else (k', v') :: erase rest k
 
 /-- `dict.update(other)` for an association list, left to right. -/
 def update (c : Ctx) (kvs : List (String × Val)) : Ctx :=
